@@ -115,6 +115,12 @@ func (api *API) encodeBasedOnType(
 		}
 
 	case reflect.Struct:
+		// a uint256 number that is held as a big.Int value is written like one that is held through a pointer (written
+		// as a struct it would have no fields and silently be left out)
+		if valueBigInt, ok := valueI.(big.Int); ok {
+			return api.encodeBasedOnType(ctx, reflect.ValueOf(&valueBigInt), &valueBigInt, bigIntPtrType, ts, opts)
+		}
+
 		return api.encodeStruct(ctx, value, valueI, valueType, ts, opts)
 	case reflect.Slice:
 		return withTypeCode(ts)(api.encodeSlice(ctx, value, valueType, ts, opts))
